@@ -332,7 +332,7 @@ func isByteSlice2(t types.Type) bool { return t != nil && isByteSlice(t) }
 
 func (e *CEnv) selectField(v CV, field string) (CV, error) {
 	w := e.world()
-	if v.GoT == nil {
+	if v.GoT == nil || v.T.Sort == SSlice {
 		// builtin accessors on Slice terms
 		if v.T.Sort == SSlice {
 			switch field {
@@ -407,15 +407,15 @@ func (e *CEnv) index(v, i CV) (CV, error) {
 	if v.T.Sort == SSlice {
 		if v.GoT == nil || isByteSlice(v.GoT) {
 			bm := w.heapGet(e.heap(), "BM", ArraySort(SRef, SBytes))
-			return CV{T: BAt(Select(bm, SBase(v.T)), Add(SOff(v.T), i.T))}, nil
+			return CV{T: BAt(Select(bm, SBase(v.T)), EIdx(SOff(v.T), i.T))}, nil
 		}
 		elem := v.GoT.Underlying().(*types.Slice).Elem()
 		if _, isStruct := asStruct(elem); isStruct {
-			addr := e.ex.elemAddr(SBase(v.T), Add(SOff(v.T), i.T), elem)
+			addr := e.ex.elemAddr(SBase(v.T), EIdx(SOff(v.T), i.T), elem)
 			return CV{T: addr, GoT: types.NewPointer(elem)}, nil
 		}
 		n, s := w.ElemArray(elem)
-		return CV{T: Select(Select(w.heapGet(e.heap(), n, s), SBase(v.T)), Add(SOff(v.T), i.T)), GoT: elem}, nil
+		return CV{T: Select(Select(w.heapGet(e.heap(), n, s), SBase(v.T)), EIdx(SOff(v.T), i.T)), GoT: elem}, nil
 	}
 	if v.GoT != nil {
 		if mt, ok := v.GoT.Underlying().(*types.Map); ok {
